@@ -48,15 +48,24 @@ class Tracer(object):
     def current(self):
         return self.stack[-1].name() if self.stack else None
 
+    _ABSENT = object()
+
     def _patch(self, owner, name, new):
-        self._saved.append((owner, name, owner.__dict__[name] if isinstance(owner, type) else getattr(owner, name)))
+        if isinstance(owner, type):
+            old = owner.__dict__.get(name, self._ABSENT)     # inherited: remove our wrapper again on exit
+        else:
+            old = getattr(owner, name)
+        self._saved.append((owner, name, old))
         setattr(owner, name, new)
 
     def __enter__(self):
         t = self
 
         # ---- line attempts
-        for cls in (F.TypedField, F.FloatField):
+        # every line class of the module that defines its own value() (whatever the class layout of the tree under test is)
+        line_classes = [c for c in vars(F).values() if isinstance(c, type) and issubclass(c, F.Field) and 'value' in c.__dict__ and c is not F.Field]
+        line_classes.sort(key=lambda c: len(c.__mro__))
+        for cls in line_classes:
             orig = cls.__dict__['value']
 
             def value(self, inputs, values, _orig=orig):
@@ -209,7 +218,10 @@ class Tracer(object):
 
     def __exit__(self, *exc):
         for owner, name, old in reversed(self._saved):
-            setattr(owner, name, old)
+            if old is self._ABSENT:
+                delattr(owner, name)
+            else:
+                setattr(owner, name, old)
         self._saved = []
         return False
 
